@@ -22,7 +22,7 @@ def value_cases(rng, tier):
     """value expressions: the whole result of a call (not just a comparison on it) is compared.
        (1) concat over every tuple of 2..4 arguments from a pool of present / absent array and byte-string
            expressions (exhaustive small scope: absent arguments in leading, middle and trailing positions);
-       (2) random calls (nested to depth 3) evaluated as value expressions."""
+       (2) random calls (nested to depth 3, with map-each first arguments) evaluated as value expressions."""
     out = []
     sch = lg.Scheme(lg.RICH_FIELDS, lg.RICH_FNS, [], True)
     f = sch.field_index
@@ -48,7 +48,43 @@ def value_cases(rng, tier):
                 e = ("call", concat, tuple(("ai", a) for a in args))
                 ctxs = [lg.gen_ctx(rng, sch, p_absent=rng.choice([0.0, 0.3, 0.6])) for _ in range(nctx)]
                 out.append(lg.exec_case(sch, e, ctxs, lg.Layout(rng), kind="exec-value")[0])
-    g = lg.Gen(rng, sch, features=("index", "call", "oneof", "vec", "mapbool"), max_depth=3)
+    # (3) every library function applied to `field[*]` for every array / map field whose element type fits its
+    #     first parameter, as a value expression: absent, empty and populated containers; the absence must carry
+    #     the call's static type (Array of the return type)
+    for fi, (fname, lib) in enumerate(sch.fns):
+        sig = lg.LIB[lib]
+        if not sig or not sig[0]:
+            continue
+        params, opts, ret = sig
+        kind0, t0 = params[0]
+        if kind0 == "literal":
+            continue
+        for xi, (xname, xt, xopt) in enumerate(sch.fields):
+            paths = []
+            if not isinstance(xt, str) and xt[1] == t0:
+                paths.append(("field", xi, "each"))
+            if not isinstance(xt, str) and not isinstance(xt[1], str) and xt[1][1] == t0:
+                paths.append(("field", xi, ("a", 0) if xt[0] == "array" else ("k", b"k1"), "each"))
+                paths.append(("field", xi, ("a", 9) if xt[0] == "array" else ("k", b"missing"), "each"))
+            for pth in paths:
+                args = [("ai", pth)]
+                ok = True
+                for kind, t in params[1:]:
+                    a = None
+                    if t == "int":
+                        a = ("lit", ("i", 3))
+                    elif t == "bytes":
+                        a = ("lit", ("s", b"zz")) if kind != "field" else ("ai", ("field", f("str")))
+                    if a is None or (kind == "field" and a[0] == "lit"):
+                        ok = False
+                        break
+                    args.append(a)
+                if not ok:
+                    continue
+                e = ("call", fi, tuple(args))
+                ctxs = [lg.gen_ctx(rng, sch, p_absent=p) for p in (0.0, 0.5, 1.0)]
+                out.append(lg.exec_case(sch, e, ctxs, lg.Layout(rng), kind="exec-value")[0])
+    g = lg.Gen(rng, sch, features=("index", "each", "call", "oneof", "vec", "mapbool"), max_depth=3)
     n = 600 if tier == "quick" else 10000
     made = 0
     tries = 0
